@@ -1,5 +1,6 @@
-(* CompileStatic4.v — C01: the COMPILE-TIME theorem for the fragment with closures as values
-   (Proofs/Closures3.v): on a well-formed expression, under a header that binds the names sc,
+(* CompileStatic4.v — C01: the COMPILE-TIME theorem for fragment 4 (closures as values, lambda bodies of
+   several expressions; port of CompileStatic3.v)
+   (Proofs/Closures4.v): on a well-formed expression, under a header that binds the names sc,
    compile_expression succeeds, appends code to the lambda under construction, keeps its header,
    extends the compile-time state and leaves the registers and the table of lexical environments
    alone.  [lam_static4] additionally exports the shape of a compiled lambda expression (the
